@@ -113,3 +113,22 @@ def check(facts, rep, tier, cfg):
         rep.ok("C12.R4", i["key"], i["where"], i["detail"], nontrivial=False)
     for v in sub.violations:
         rep.bad("C12.R4", v["key"].split("/", 1)[1], v["where"], v["msg"])
+    # ---- R5 every reaction that closes a stream's write side sets the closed flag and wakes the parked writer (C10 table cells)
+    rep.rule("C12.R5", "a writer waiting for credit is woken whenever the stream is closed: the Reset / overrun cells of the reaction table contain "
+                       "`flag:set` + `wake` (= C05.R3 / C06.R2), and the slot-closing function sets the flag unconditionally")
+    import rules_c10
+    sub = type(rep)(rep.prop, rep.tier, rep.config)
+    rules_c10.check(facts, sub, tier, cfg)
+    rep.paths += sub.paths
+    pick = ("cell/Reset/Established", "cell/Push/overrun")
+    k5 = 0
+    for i in sub.instances:
+        if i["key"] in pick:
+            k5 += 1
+            rep.ok("C12.R5", i["key"], i["where"], i["detail"], nontrivial=False)
+    for v in sub.violations:
+        if v["key"].split("/", 1)[1] in pick:
+            k5 += 1
+            rep.bad("C12.R5", v["key"].split("/", 1)[1], v["where"], v["msg"])
+    rep.floor("C12.R5", "stream-closing cells", k5, 2)
+
